@@ -4,7 +4,7 @@ import base64
 from hypothesis import strategies as st
 
 from ..runner import Violation, digest
-from ..ref import secp, b58, bech32, wire as W, hashes as H
+from ..ref import secp, b58, bech32, wire as W, hashes as H, compact as RC
 from .. import libx
 from .c13 import secrets
 
@@ -84,6 +84,23 @@ def check_case(case):
     a = libx.call('address', P2PKHBitcoinAddress, own)[1]
     if libx.call('verifymessage-own', VerifyMessage, a, msg, sig)[1] is not True:
         raise Violation('verify/own-false', 'VerifyMessage is not True for the signer\'s own address')
+    # the same signature under other chain selections, in sequence: the signer's address OF THAT CHAIN verifies, the one of a
+    # chain with another version byte does not (and nothing remembered from the previous selection changes that)
+    try:
+        for chain in case.get('chains', []):
+            libx.select(chain)
+            ver = RC.CHAINS[chain]['pubkey']
+            mine = b58.check_encode(ver, H.h160(secp.ser_pub(P, comp)))
+            if libx.call('verifymessage-own-' + chain, VerifyMessage, P2PKHBitcoinAddress(mine), msg, sig)[1] is not True:
+                raise Violation('verify/own-false-after-chain-switch', 'VerifyMessage is not True for the signer\'s %s address after selecting %s' % (chain, chain))
+            k2 = libx.call('key', CBitcoinSecret.from_secret_bytes, x.to_bytes(32, 'big'), comp)[1]
+            sig2 = libx.call('signmessage', SignMessage, k2, msg)[1].decode('ascii')
+            if libx.call('verifymessage-own-' + chain, VerifyMessage, P2PKHBitcoinAddress(mine), msg, sig2)[1] is not True:
+                raise Violation('verify/own-false-after-chain-switch', 'a signature made under %s does not verify for the signer\'s %s address' % (chain, chain))
+    finally:
+        libx.select('mainnet')
+    if case.get('chains') and libx.call('verifymessage-own', VerifyMessage, a, msg, sig)[1] is not True:
+        raise Violation('verify/own-false-after-chain-switch', 'VerifyMessage is not True for the signer\'s mainnet address after returning to mainnet')
     negs = [('twin', _addr(x, not comp), text)]
     for o in case['others']:
         if o != x:
@@ -149,7 +166,8 @@ texts = st.one_of(st.sampled_from(['', 'a', 'hello', 'line\nbreak', 'héllo wör
 @st.composite
 def s_case(draw):
     c = {'secret': draw(secrets), 'compressed': draw(st.booleans()), 'message': draw(texts),
-         'others': [draw(secrets) for _ in range(3)], 'frid': draw(st.integers(0, 7))}
+         'others': [draw(secrets) for _ in range(3)], 'frid': draw(st.integers(0, 7)),
+         'chains': draw(st.lists(st.sampled_from(libx.CHAINS), max_size=3))}
     if draw(st.integers(0, 40)) == 0:
         c['message'] = 'qß' if draw(st.booleans()) else 'z'
         c['rep'] = 35000
